@@ -36,13 +36,13 @@ var c01Typed = map[string]any{
 }
 var c01TypedNames = []string{"int0", "false", "nil", "slice-tag", "map-tag", "slice-must", "float"}
 
-var c01Sinks = []string{"text", "vtext", "attri", "bound", "vbind"}
+var c01Sinks = []string{"text", "vtext", "attri", "bound", "vbind", "nsattr"}
 var c01Neighs = []string{"N0", "Nplain", "NentBefore", "NampAfter", "NattrEnt", "NattrLt"}
 var c01Constructs = []string{"top", "if", "else", "forroot", "forrootOuter", "forchild", "incbound", "incinterp", "slotprop", "slotnamed", "layout", "iffor", "inpre", "slot2inc", "slot2incnamed", "forinc", "slot2", "slot2if", "slot2else", "slotloopif", "comp2if", "again", "increq", "incwrap", "increqslot"}
 
 func c01NeighOK(sink, neigh string) bool {
 	switch sink {
-	case "text", "attri":
+	case "text", "attri", "nsattr":
 		return true
 	}
 	return neigh == "N0" || neigh == "NattrEnt" || neigh == "NattrLt"
@@ -74,6 +74,8 @@ func c01Sink(sink, neigh, e, extra string) string {
 		return fmt.Sprintf(`<p id="s"%s%s v-text="%s"></p>`, extra, attr, e)
 	case "attri":
 		return fmt.Sprintf(`<p id="s"%s%s title="%sa{{ %s }}b%s"></p>`, extra, attr, pre, e, post)
+	case "nsattr": // attributes the parser puts into a namespace (xlink:href, xml:lang) inside foreign content
+		return fmt.Sprintf(`<svg id="s"%s%s><use xlink:href="%sa{{ %s }}b%s" xml:lang="{{ %s }}"></use><a xlink:title="{{ %s }}">t</a></svg>`, extra, attr, pre, e, post, e, e)
 	case "bound":
 		return fmt.Sprintf(`<p id="s"%s%s :title="%s"></p>`, extra, attr, e)
 	case "vbind":
@@ -385,7 +387,7 @@ func init() {
 	core.Register(&core.Check{
 		ID:    "C01",
 		Level: "exploration",
-		Rule: "all token strings up to the bound over the alphabet " + fmt.Sprintf("%q", c01Alphabet) + " plus 7 non-string values, in every sink (text, v-text, interpolated attr, :attr, v-bind:attr) x static neighbourhood (6) x enclosing construct (" + fmt.Sprint(len(c01Constructs)) + ": 13 single-evaluation constructs (incl. a sink below <pre>) swept with the full alphabet, 12 constructs in which one source node is evaluated repeatedly - slot content used twice / in a loop, cached components, template-rooted components, a second render - swept with the 7 tokens that matter for repeated interpolation); plus a sizes part: every token at the start / middle / end of values of 21 lengths around 16 .. 4096 in every sink; " +
+		Rule: "all token strings up to the bound over the alphabet " + fmt.Sprintf("%q", c01Alphabet) + " plus 7 non-string values, in every sink (text, v-text, interpolated attr, :attr, v-bind:attr, interpolated namespaced attributes xlink:href / xml:lang / xlink:title inside <svg>) x static neighbourhood (6) x enclosing construct (" + fmt.Sprint(len(c01Constructs)) + ": 13 single-evaluation constructs (incl. a sink below <pre>) swept with the full alphabet, 12 constructs in which one source node is evaluated repeatedly - slot content used twice / in a loop, cached components, template-rooted components, a second render - swept with the 7 tokens that matter for repeated interpolation); plus a sizes part: every token at the start / middle / end of values of 21 lengths around 16 .. 4096 in every sink; " +
 			"oracle: HTML5 re-parse has the same element/attribute-name skeleton as with the value 'zqx', and a canary bound to `secret` never appears. non-trivial = value contains one of < > \" ' & {; distinct = distinct (context, token vector)",
 		Bounds:      map[string]string{"quick": "token strings of length <= 3 in all contexts; text sink inside 15 special host elements (raw-text, RCDATA, noscript in both scripting modes, select, table, svg text, style / script inside svg and math) with the host's end tag added to the alphabet, length <= 3", "thorough": "token strings of length <= 3 in all contexts, length 4 in the N0 neighbourhood of every sink and construct"},
 		Assumptions: []string{"golang.org/x/net/html is a faithful HTML5 parser", "v-html sinks and script/style bodies are exempt and never used as sinks"},
